@@ -17,9 +17,14 @@
 // Options.Disable[Feat…] switches a construct class off; use it for classes
 // listed in known_findings.jsonl.  Classes the current tree is known to
 // mishandle (see C04–C06 entries): FeatNumericIdent ($1 identifiers),
-// FeatLimitsMaxZero, FeatMultiInlineExport, FeatEmptyExportName, and for the
-// printer/strip family additionally FeatStart, FeatAnonFunc, FeatTableSet ….
+// FeatLimitsMaxZero, FeatMultiInlineExport, FeatEmptyExportName; for anything
+// that goes through the printer (wa fmt, watstrip) also FeatHardExportName, and
+// for watstrip FeatNumericFuncRef, FeatAnonFunc, FeatAnonInlineExport.
 // Disable exactly the keys your property's known findings name.
+//
+// Other options: MaxFuncs/MaxBody (size), Trampolines, MemoryInit (opt-in:
+// `memory.init` with length 0 — Wa's assembler currently rejects it),
+// InlineFuncExportsOnly.
 //
 // Guarantees of every generated module (checked by selftest_test.go against V8
 // and the vendored wazero, 0 rejections):
